@@ -11,6 +11,7 @@ CONSTANTS
   DEV_NestedDstFsPath = FALSE
   DEV_LinkValidatedOnDisk = FALSE
   DEV_DerefSpecial = FALSE
+  DEV_DirEntryByOwnPath = FALSE
   DEV_PrepOwnPathDirRemoved = FALSE
   DEV_PrepPruneNonDominating = FALSE
   DEV_PrepAbsLinkAccepted = FALSE
